@@ -209,8 +209,46 @@ func c18Case(c *ctx, t typeSpec, wrapped bool, sets []setOp, id string, ops []c1
 	}
 	p, pv := guard(func() {
 		src := buildRes(t, wrapped, append([]setOp{{"id", id}}, sets...))
+		// slices obtained from the source BEFORE it is copied
+		early := map[string]any{}
+		for _, f := range t.fields {
+			early[f.name] = src.Get(f.name)
+		}
 		cpy := src.(jsonapi.Copier).Copy()
 		steps = append(steps, oPair(t, src, cpy))
+		// writing through them afterwards reaches the source at most, never the copy (each write is undone)
+		cpyBefore := readAll(t, cpy)
+		for _, f := range t.fields {
+			switch x := early[f.name].(type) {
+			case []byte:
+				if len(x) > 0 {
+					old := x[0]
+					x[0] ^= 0xff
+					if !reflect.DeepEqual(readAll(t, cpy), cpyBefore) && key == "" {
+						key, detail = "copy-not-independent", fmt.Sprintf("writing through a slice obtained from the source before Copy (%s) changed the copy", f.name)
+					}
+					x[0] = old
+				}
+			case *[]byte:
+				if x != nil && len(*x) > 0 {
+					old := (*x)[0]
+					(*x)[0] ^= 0xff
+					if !reflect.DeepEqual(readAll(t, cpy), cpyBefore) && key == "" {
+						key, detail = "copy-not-independent", fmt.Sprintf("writing through a slice obtained from the source before Copy (%s) changed the copy", f.name)
+					}
+					(*x)[0] = old
+				}
+			case []string:
+				if len(x) > 0 {
+					old := x[0]
+					x[0] = "written-through-early-slice"
+					if !reflect.DeepEqual(readAll(t, cpy), cpyBefore) && key == "" {
+						key, detail = "copy-not-independent", fmt.Sprintf("writing through a slice obtained from the source before Copy (%s) changed the copy", f.name)
+					}
+					x[0] = old
+				}
+			}
+		}
 		// the copy reads the same as the source
 		if a, b := readAll(t, src), readAll(t, cpy); !reflect.DeepEqual(a, b) || src.Get("id") != cpy.Get("id") || src.GetType().Name != cpy.GetType().Name {
 			key, detail = "copy-differs-from-source", fmt.Sprintf("%v vs %v", a, b)
@@ -322,6 +360,18 @@ func c18Case(c *ctx, t typeSpec, wrapped bool, sets []setOp, id string, ops []c1
 				key, detail = "type-shared-with-new", "editing the type of the resource returned by New() changed the source's fields"
 			} else if !reflect.DeepEqual(srcBefore, readAll(t, src)) {
 				key, detail = "new-not-independent", "writing to the resource returned by New() changed what is read from the source"
+			}
+			// a type whose fields were all removed again (empty, non-nil maps): its copy is its own
+			emptied := jsonapi.Type{Name: "emptied"}
+			_ = emptied.AddAttr(jsonapi.Attr{Name: "a", Type: jsonapi.AttrTypeInt})
+			_ = emptied.AddRel(jsonapi.Rel{FromType: "emptied", FromName: "r", ToType: "other"})
+			emptied.RemoveAttr("a")
+			emptied.RemoveRel("r")
+			ec := emptied.Copy()
+			_ = ec.AddAttr(jsonapi.Attr{Name: "late", Type: jsonapi.AttrTypeInt})
+			_ = ec.AddRel(jsonapi.Rel{FromType: "emptied", FromName: "late-rel", ToType: "other"})
+			if len(emptied.Attrs) != 0 || len(emptied.Rels) != 0 {
+				key, detail = "type-copy-shares-maps", "adding fields to the copy of a type without fields added them to the source"
 			}
 			tc := t.softType()
 			tc2 := tc.Copy()
